@@ -323,6 +323,10 @@ def assembly(cx, rep, seg, mid):
             if ok_all:
                 check_slopes(ra, rb, iv)
             return
+        if isinstance(seq, SeqScan):
+            # a pass that only carries the previous interval's right slope along is an elementwise map in disguise
+            from .schemas import memoryless_scan_as_map
+            seq = memoryless_scan_as_map(it, seq) or seq
         if not isinstance(seq, SeqMap):
             rep.ob('align', inst, False, 'segments are not an elementwise map (nor [head] ++ map ++ [tail])', fn=inst, file=file, line=line)
             return
